@@ -199,9 +199,26 @@ func NewProofCommit(key *gabikeys.PublicKey, witn *Witness, randomizer *big.Int)
 	return list, (*ProofCommit)(&commit), nil
 }
 
+// ValidateStructure checks that all elements of the proof that the prover must supply are
+// present (the "alpha" response, Nu and Challenge are filled in by SetExpected).
+func (p *Proof) ValidateStructure() error {
+	if p.Cr == nil || p.Cu == nil || p.SignedAccumulator == nil || p.Responses == nil {
+		return errors.New("incomplete nonrevocation proof")
+	}
+	for _, name := range secretNames {
+		if name != "alpha" && p.Responses[name] == nil {
+			return errors.New("incomplete nonrevocation proof")
+		}
+	}
+	return nil
+}
+
 // SetExpected sets certain values of the proof to expected values, inferred from the containing proofs,
 // before verification.
 func (p *Proof) SetExpected(pk *gabikeys.PublicKey, challenge, response *big.Int) error {
+	if err := p.ValidateStructure(); err != nil {
+		return err
+	}
 	acc, err := p.SignedAccumulator.UnmarshalVerify(pk)
 	if err != nil {
 		return err
